@@ -3,7 +3,10 @@
 
 mod c02;
 mod c03;
+mod c04;
+mod c24;
 mod c25;
+mod c26;
 mod prog;
 mod subject;
 
@@ -12,7 +15,10 @@ fn main() {
     match prop.as_str() {
         "C02" => c02::run(vp_core::Ctx::from_env("C02")),
         "C03" => c03::run(vp_core::Ctx::from_env("C03")),
+        "C04" => c04::run(vp_core::Ctx::from_env("C04")),
+        "C24" => c24::run(vp_core::Ctx::from_env("C24")),
         "C25" => c25::run(vp_core::Ctx::from_env("C25")),
+        "C26" => c26::run(vp_core::Ctx::from_env("C26")),
         _ => vp_core::machinery_error(&format!("mc-graph: unknown property '{prop}'")),
     }
 }
